@@ -17,10 +17,35 @@ ASSUMPTIONS = {
 
 UNITS = {
     'unitA': {'spec': 'unitA.vrs'},
+    'unitF': {'spec': 'unitF.vrs', 'expanded': True, 'threads': 8},
     'unitC': {'spec': 'unitC.vrs', 'expanded': True, 'threads': 16, 'timeout': 2400},
 }
 
 PROPS = {
+    'C16': {
+        'units': ['unitF'],
+        'assumptions': ['A-arena', 'A-ext', 'A-extract', 'A-verus'],
+        'rules': 'R1 R2 R3 (Instr::visit_mut per arm) R6 R8 (trait default bodies verified in a sub-trait, trait itself as declarations+contracts); operands(x) generated from the field TYPES of the unexpanded enum Instr',
+        'claimed': [
+            'for every Instr variant: the generated Visit and VisitMut impls report exactly operands(x) -- the entity-id fields by type, in declaration order, each once -- to any visitor (observation log defined by the id-hook contracts)',
+            'Instr::visit / Instr::visit_mut (dispatchers): per-instruction hook + field visit report operands(x) exactly once',
+            'default per-instruction hooks of Visitor and VisitorMut leave the log and the operands unchanged (F5 failed here before the fix)',
+            'InstrSeq::visit / visit_mut: the sequence-level type operand, once, only for multi-value sequences',
+            'no recursion among generated impls and hooks: Verus accepts the file without any `decreases` (it rejects recursion without one)',
+        ],
+        'unclaimed': [
+            'dfs_in_order / dfs_pre_order_mut drivers (while-let + labelled continue + iterator adapters): not under contract; bounded stand-in only (order, nesting, exactly-once over all control-flow programs of the budget)',
+            'actual call-stack usage at nesting depth 10^5 (only non-recursion is expressible)',
+        ],
+        'standins': [
+            {'fn': 'dfs_in_order / dfs_pre_order_mut (src/ir/traversals.rs) with a recording visitor, operand counts', 'argv': ['visit'],
+             'bound': 'one module per accepted operator sample (3 immediates each, ~640 modules): reported entity events by kind == entity operands of the decoded input body, for both traversals',
+             'why': 'drivers use while-let, labelled continue and iterator adapters (outside Verus)'},
+            {'fn': 'dfs_in_order event trace (order, start/end nesting, exactly once)', 'argv': ['visit-cf', '4', '3'],
+             'bound': 'all 89021 control-flow programs with <= 4 nodes and nesting <= 3: trace == in-order flattening of the body; mutable traversal visits the same number of instructions',
+             'why': 'same'},
+        ],
+    },
     'C03': {
         'units': ['unitC'],
         'assumptions': ['A-deps', 'A-arena', 'A-std', 'A-iter', 'A-float', 'A-arith', 'A-path', 'A-extract', 'A-verus'],
